@@ -161,7 +161,6 @@ structure State where
   closer : Option Nat          -- sender that took sender_count to 0 and has not yet tried EMPTY→CLOSED
   armed : Bool                 -- the registered waker belongs to a poll that has answered Pending
   reopened : Bool              -- some clone was made from a sender handle that had already been closed
-  discRace : Bool              -- the receiver answered Disconnected although its CAS EMPTY→CLOSED failed (stale EMPTY)
   rClosedIt : Bool             -- the receiver itself moved the state word EMPTY→CLOSED
   sval : Nat → Option Nat
   sres : Nat → Option Res
@@ -179,7 +178,7 @@ def init (progS : Nat → List Op) (progR : List Op) : State :=
     closed := fun _ => false, tok := fun _ => false, fwakes := fun _ => 0, fpend := fun _ => false,
     freed := false, nextH := 1, gone := fun _ => false, loc := fun _ => {},
     prog := fun a => match a with | .S 0 => progS 0 | .S _ => [] | .R => progR,
-    progS := progS, dec := fun _ => false, writer := none, taker := none, closer := none, armed := false, reopened := false, discRace := false, rClosedIt := false,
+    progS := progS, dec := fun _ => false, writer := none, taker := none, closer := none, armed := false, reopened := false, rClosedIt := false,
     sval := fun _ => none, sres := fun _ => none, mover := none, moved := [], received := [], dropped := [],
     results := fun _ => [] }
 
@@ -431,9 +430,11 @@ def stepTry2 (s : State) (a : Ag) : Option State :=
     if s.scount = 0 then some (afterTry s a l .disc) else some (afterTry s a l .empty)
   | .tLdCount =>                                  -- EMPTY: sender_count.load(Acquire) == 0
     if s.scount = 0 then some (setLoc s a { l with m := .tCasEC }) else some (afterTry s a l .empty)
-  | .tCasEC =>                                    -- CAS EMPTY → CLOSED (Relaxed / Relaxed), result ignored
+  | .tCasEC =>                                    -- CAS EMPTY → CLOSED (Relaxed / Acquire)
     if s.st = .empty then some (afterTry { s with st := .closed, rClosedIt := true } a l .disc)
-    else some (afterTry { s with discRace := true } a l .disc)
+    -- Err(SENT) | Err(WRITING): a send completed between the two loads → `self.try_recv()` again (fix a886a91)
+    else if s.st = .sent ∨ s.st = .writing then some (setLoc s a { l with m := .tLdState })
+    else some (afterTry s a l .disc)
   | _ => none
 
 /-- `OneShotShared::poll_recv` around its two tries; `park` of the executor -/
@@ -450,9 +451,11 @@ def stepPoll (s : State) (a : Ag) : Option State :=
     if s.scount = 0 then some (setLoc s a { l with m := .ret .disc }) else some (setLoc s a { l with m := .pReg })
   | .pLdCountB =>                                 -- cur == EMPTY && sender_count.load(Acquire) == 0
     if s.scount = 0 then some (setLoc s a { l with m := .pCasEC }) else some (setLoc s a { l with m := .pReg })
-  | .pCasEC =>                                    -- CAS EMPTY → CLOSED (Relaxed / Relaxed), result ignored
+  | .pCasEC =>                                    -- CAS EMPTY → CLOSED (Relaxed / Acquire)
     if s.st = .empty then some { s with st := .closed, rClosedIt := true, loc := upd s.loc a { l with m := .ret .disc } }
-    else some { s with discRace := true, loc := upd s.loc a { l with m := .ret .disc } }
+    -- Err(SENT) | Err(WRITING) → `continue`: the poll loop calls try_recv again (fix a886a91)
+    else if s.st = .sent ∨ s.st = .writing then some (setLoc s a { l with stage := 1, m := .tLdState })
+    else some (setLoc s a { l with m := .ret .disc })
   | .pReg =>                                      -- receiver_waker.register(cx.waker())
     match l.k with
     | .recv t => some { s with waker := some (.task t), armed := false, loc := upd s.loc a { l with stage := 2, m := .tLdState } }
@@ -570,12 +573,12 @@ def ordAt : Mic → Ord
   | .pbLdRdrop | .pbLdState | .icLdState | .icLdCount => .acquire
   | .tLdState | .tLdState2 | .tLdCount | .pLdState | .pLdCountA | .pLdCountB => .acquire
   | .tCasST => .acqrel
-  | .tStClosed | .tLdCount2 | .tCasEC | .pCasEC => .relaxed
+  | .tStClosed | .tLdCount2 | .tCasEC | .pCasEC => .relaxed      -- (CAS: success ordering)
   | _ => .relaxed
 
 /-- CAS failure ordering -/
 def ordFail : Mic → Ord
-  | .sCasEW | .tCasST => .acquire
+  | .sCasEW | .tCasST | .tCasEC | .pCasEC => .acquire
   | _ => .relaxed
 
 /-- current value of an atomic object (Bool as 0/1) -/
